@@ -451,6 +451,24 @@ fn workloads(property: &str, quick: bool) -> Vec<Workload> {
             tables: vec![("small", vec![1, 2, 3], vec![]), ("big", vec![1, 210, 420], vec![])],
         });
     }
+    // W11: TOAST rows written by a transaction (COMMIT logs the TOAST leaf) and then by autocommit
+    // statements on the same TOAST leaf: an autocommit statement that does not log its TOAST pages
+    // lets replay put the older leaf image back (row pointer without its chunks).
+    {
+        let mut s = pragmas();
+        s.push("CREATE TABLE t (id INT PRIMARY KEY, a TEXT)".into());
+        w.push(Workload {
+            name: "w11-toast-txn-then-autocommit",
+            setup: s,
+            units: vec![
+                txn("txn-insert-toast", &[&format!("INSERT INTO t VALUES (1, '{}')", "m".repeat(1500))], vec![("t", Some(1))]),
+                u1("insert-toast", &format!("INSERT INTO t VALUES (2, '{}')", "n".repeat(1600)), vec![("t", Some(2))]),
+                u1("insert-toast", &format!("INSERT INTO t VALUES (3, '{}')", "o".repeat(5000)), vec![("t", Some(3))]),
+                u1("insert", "INSERT INTO t VALUES (4, 'inline')", vec![("t", Some(4))]),
+            ],
+            tables: vec![("t", vec![1, 2, 3, 4], vec![])],
+        });
+    }
     // W4: checkpoints between statements
     w.push(Workload {
         name: "w4-checkpoint",
